@@ -107,6 +107,11 @@ def run(ctx):
 
     def one(case):
         names, groups, cuts = case["genome"], case["groups"], case["cuts"]
+        if case.get("long_names"):
+            # contig names longer than 8 characters that share their first 8 (scaffold-style names)
+            lng = lambda n: n if n in ("chr9_alt", "chrM") else "chromosome00" + n
+            names, groups = [lng(n) for n in names], [lng(g) for g in groups]
+            case = dict(case, genome=names, groups=groups)
         ignored = "chr9_alt"
         sizes = {n: SIZE for n in names}
         sizes_with_ignored = dict(sizes)
@@ -242,8 +247,17 @@ def run(ctx):
                 ctx.count("dict_source_raised")
             else:
                 judge("MultiStream(dict-source)", dict(case, groups=ms_groups), out, out[1], [r for r in ms_rows if r[0] in names], set(names) <= set(ms_groups), "dict-source-does-not-cover-the-contig-list")
+            def m_table():
+                # the data handed over as one in-memory table instead of a stream: same contract
+                ms = MultiStream(sizes, a=table(ms_rows))
+                out = []
+                for n, chunk in zip(ms.sequence_names, ms.a):
+                    out += [(str(n), s_, e_) for (_, s_, e_) in rows_of(chunk)]
+                    if any(c != str(n) for c in chrom_names(chunk.chromosome)):
+                        out += [("MISATTRIBUTED:" + str(n), -1, -1)]
+                return out
             exp_ms = [r for r in ms_rows]
-            for cname, fn in (("MultiStream.zip(names,data)", m_names_first), ("MultiStream.zip(data,lengths)", m_data_first)):
+            for cname, fn in (("MultiStream.zip(names,data)", m_names_first), ("MultiStream.zip(data,lengths)", m_data_first), ("MultiStream(in-memory-table)", m_table)):
                 out = attempt(fn)
                 judge(cname, dict(case, groups=ms_groups), out, out[1] if out[0] == "ok" else None, exp_ms, ms_valid, why or "unknown-contig")
             # jaccard / forbes of the stream with itself-shifted: value must equal the model or raise
@@ -316,7 +330,7 @@ def run(ctx):
             continue
         n_entries = len(make_rows(groups))
         for ci, cuts in enumerate(chunkings(n_entries, gen, ctx.pick(1, 4))):
-            ctx.run_case(one, {"genome": names, "groups": groups, "cuts": list(cuts), "similarity": ci == 0, "geometry": ci < 2, "extra_ignored": extra_ignored})
+            ctx.run_case(one, {"genome": names, "groups": groups, "cuts": list(cuts), "similarity": ci == 0, "geometry": ci < 2, "extra_ignored": extra_ignored, "long_names": (idx + ci) % 3 == 0})
     ctx.sample({"genome": ["chr1", "chr2", "chr3"], "groups": ["chr3", "chr2"], "cuts": [1], "meaning": "entries fed in groups chr3 then chr2 as 2 chunks; every consumer must raise or hand back all entries"})
     ctx.floor("completed_compatible", ctx.pick(200, 2000))
     ctx.floor("raised_on_incompatible", ctx.pick(200, 2000))
